@@ -43,6 +43,9 @@ var gkinds = map[string][]string{
 	"stubborn": {"ok 1", "exec hstubborn p", "ok 3"},
 	// finishes at once: unaffected by the deadline
 	"early": {"ok 1", "exec hexit 0", "exec hsleep 50ms p", "ok 4", "mkdir done"},
+	// runs for a while and finishes well before the deadline: unaffected too,
+	// whatever its siblings do meanwhile
+	"slowok": {"ok 1", "exec hsleep 300ms p", "ok 4", "mkdir done"},
 	// exits at about the moment the context expires
 	"edge": {"ok 1", "exec hsleep EDGE p", "ok 3"},
 	// terminal input larger than the pty buffer, given to a program that never reads it
@@ -149,10 +152,13 @@ func runGrid(root string, g gcase) string {
 			wg.Add(1)
 			go func() {
 				defer wg.Done()
+				// a failing script ends its goroutine (runtime.Goexit): note the time on the way out
+				defer func() {
+					obs.mu.Lock()
+					ended[name] = time.Now()
+					obs.mu.Unlock()
+				}()
 				body()
-				obs.mu.Lock()
-				ended[name] = time.Now()
-				obs.mu.Unlock()
 			}()
 		}
 		t.ParallelHook = func(string) { <-gate }
@@ -230,6 +236,16 @@ func runGrid(root string, g gcase) string {
 	if finished.After(deadline.Add(slack)) {
 		return fmt.Sprintf("overrun: RunT and its subtests finished %v after the deadline", finished.Sub(deadline).Round(time.Millisecond))
 	}
+	if os.Getenv("C17_DEBUG") != "" {
+		obs.mu.Lock()
+		for n, e := range ended {
+			fmt.Fprintf(os.Stderr, "debug: %s ended %v after start (deadline %v) pid=%d sig=%q\n", n, e.Sub(start).Round(time.Millisecond), dist, obs.pid[n], obs.sig[n])
+		}
+		for _, r := range t.Results {
+			fmt.Fprintf(os.Stderr, "debug: %s %s\n%s\n", r.Name, r.Verdict, r.Log)
+		}
+		obs.mu.Unlock()
+	}
 	for i, k := range g.Scripts {
 		name := fmt.Sprintf("s%d%s", i, k)
 		var res *tsh.Result
@@ -250,7 +266,7 @@ func runGrid(root string, g gcase) string {
 		}
 		eff := strings.Join(obs.effects[name], ",")
 		switch {
-		case k == "early":
+		case k == "early" || k == "slowok":
 			if g.Sequential && i > 0 {
 				// it may legitimately start after the deadline machinery has fired
 				blockedBefore := false
@@ -337,6 +353,12 @@ func gridCases(th bool) []gcase {
 			gcase{[]string{"early", "graceful0"}, d, true, true},
 			gcase{[]string{"stubborn", "early"}, d, false, true},
 		)
+		if d >= 1500 {
+			out = append(out,
+				gcase{[]string{"early", "slowok"}, d, false, true},
+				gcase{[]string{"early", "slowok"}, d, true, true},
+				gcase{[]string{"early", "slowok", "early"}, d, false, false})
+		}
 	}
 	out = append(out, gcase{[]string{"ttyblock"}, 600, false, false})
 	return out
